@@ -54,6 +54,11 @@ func (c09Driver) Gen(r *Rand, tier string) []json.RawMessage {
 		}
 		res = append(res, mustJSON(c09Input{Idents: shapes[i:j]}))
 	}
+	// every crafted kind of remote version, each on top of an identity the local side knows (fast-forward position)
+	// and on one it does not know, in every run
+	for _, k := range c09Crafts {
+		res = append(res, mustJSON(c09Input{Idents: []c09Ident{{P: 1, A: 0, B: 2, Craft: k}, {P: 0, A: 0, B: 2, Craft: k}, {P: 2, A: 1, B: 1, Craft: k}}}))
+	}
 	n := 30
 	if tier == "thorough" {
 		n = 600
